@@ -24,6 +24,14 @@ mkdir -p demo_x && cp $SRC/demo_test.go demo_x/
 DEMO_WITH=pass; go test -vet=off -count=1 -timeout 120s ./demo_x/ >/tmp/mv/$ID-$M.demo_with 2>&1 || DEMO_WITH=fail
 rm -rf demo_x
 SUITE=$(go test -vet=off -count=1 -timeout 25m ./... 2>&1 | grep -E '^(--- FAIL|FAIL|panic)' | grep -v 'BroadcastIP' | grep -E '^--- FAIL' | tr '\n' ' ')
+# tests that failed in the full run are re-run on their own three times (the suite has sleep-based tests that
+# fail under CPU load whatever the tree): only those that fail again count
+if [ -n "$SUITE" ]; then
+  PAT=$(echo $SUITE | grep -oE 'Test[A-Za-z0-9_]+' | sort -u | tr '\n' '|' | sed 's/|$//')
+  FIRST="$SUITE"
+  SUITE=$(go test -vet=off -count=3 -timeout 25m -run "^($PAT)\$" ./... 2>&1 | grep -E '^--- FAIL' | grep -v BroadcastIP | sort -u | tr '\n' ' ')
+  echo "first full run: $FIRST ; re-run alone x3: $SUITE" > /tmp/mv/$ID-$M.rerun
+fi
 git checkout -q -- . ; git reset -q --hard HEAD
 mkdir -p demo_x && cp $SRC/demo_test.go demo_x/
 DEMO_WITHOUT=pass; go test -vet=off -count=1 -timeout 120s ./demo_x/ >/tmp/mv/$ID-$M.demo_without 2>&1 || DEMO_WITHOUT=fail
